@@ -661,6 +661,77 @@ func runC07(r *Run) {
 		}
 		r.Floor("R8", "fee/refund functions examined for machine-word arithmetic", nF, 4)
 	}
+	r.Rule("R10", "PATH.gas-limits-summed-under-an-overflow-test: the gas limit of an Ethereum transaction is the sum of its messages' gas limits, accumulated in a uint64 by the first eth decorator that sees every message (EthValidateBasicDecorator); that sum is what the wrapper's gas limit, the block-gas checks, CheckTx's gas_wanted and the fee market's gas figure are compared with, while the EVM runs every message with its own limit. In that loop every path to the accumulation passes a comparison of the message's gas with a bound derived from MaxInt64 whose failing side fails the transaction — three messages with limits 2^63−1, 2^63−1 and 100002 otherwise pass everywhere as a 100000-gas transaction and use 9.2e18 gas")
+	if vb, ok := P.FnOK("(app/ante/evm.EthValidateBasicDecorator).AnteHandle"); ok {
+		nAcc := 0
+		for _, h := range vb.Blocks {
+			if !isLoopHeader(h) {
+				continue
+			}
+			body := loopBody(h)
+			for _, in := range h.Instrs {
+				ph, ok := in.(*ssa.Phi)
+				if !ok {
+					continue
+				}
+				for i, e := range ph.Edges {
+					if !body[h.Preds[i]] {
+						continue
+					}
+					add, ok := stripValue(e).(*ssa.BinOp)
+					if !ok || add.Op != token.ADD {
+						continue
+					}
+					other := add.Y
+					if stripValue(add.X) != ssa.Value(ph) {
+						if stripValue(add.Y) != ssa.Value(ph) {
+							continue
+						}
+						other = add.X
+					}
+					if !backSlice(other).HasCall(func(g CallInfo) bool { return g.Name == "GetGas" }) {
+						continue
+					}
+					nAcc++
+					isTest := func(x ssa.Instruction) bool {
+						b, ok := x.(*ssa.BinOp)
+						if !ok {
+							return false
+						}
+						switch b.Op {
+						case token.LSS, token.LEQ, token.GTR, token.GEQ:
+						default:
+							return false
+						}
+						isGas := func(v ssa.Value) bool {
+							sl := backSlice(v)
+							return sl.HasCall(func(g CallInfo) bool { return g.Name == "GetGas" }) || sl.Has(ph)
+						}
+						isMax := func(v ssa.Value) bool {
+							return backSlice(v).Any(func(y ssa.Value) bool {
+								c, ok := y.(*ssa.Const)
+								return ok && c.Value != nil && c.Value.Kind().String() == "Int" && (c.Value.ExactString() == "9223372036854775807" || c.Value.ExactString() == "18446744073709551615")
+							})
+						}
+						return ((isGas(b.X) && isMax(b.Y)) || (isGas(b.Y) && isMax(b.X))) && valueBranches(b, 0)
+					}
+					var w []ssa.Instruction
+					for _, sc := range h.Succs {
+						if body[sc] && sc != h {
+							if p := (PathQuery{Fn: vb, StartBlock: sc, Block: isTest, Target: func(x ssa.Instruction) bool { return x == ssa.Instruction(add) }}).Search(); p != nil {
+								w = p
+							}
+						}
+					}
+					r.Check(w == nil, "R10", fmt.Sprintf("%s#gas-sum-%d-overflow-tested", fnID(vb), nAcc), P.Pos(instrPos(add)), "every path to the accumulation passes a comparison with a MaxInt64/MaxUint64 bound",
+						"the messages' gas limits are added up in a uint64 with no overflow test: a sum that wraps is taken for a small gas limit by every check made on the transaction as a whole, while each message runs with its own (huge) limit — gas used exceeds the gas limit, and the block gas limit", P.witness(w)...)
+				}
+			}
+		}
+		r.Floor("R10", "gas-limit accumulations in EthValidateBasicDecorator", nAcc, 1)
+	} else {
+		r.Bad("R10", "anchor/EthValidateBasicDecorator.AnteHandle", "", "not found")
+	}
 	r.Rule("R9", "see C16 R3 (imported): the gas a precompile call is charged is exactly what its Cosmos-side work consumed — every Run charges contract.UseGas(GasConsumed − initialGas) and fails when that is refused, and the SDK gas meter RunSetup installs is limited by the call's gas plus what it is pre-charged with (the gas the transaction's meter already shows): a later message of a multi-message Ethereum transaction must not pay for the earlier ones inside its precompile calls")
 	r.Import("R9/C16.", []string{"R3"}, runC16)
 	// ---------- R5 ----------
